@@ -43,30 +43,42 @@ def sendRaw (r : Req) : Prog Rsp := .send r .done
 /-! ### sel.get_sel_entry -/
 
 /-- Constants of get_sel_entry: ENTIRE_RECORD (FFh), the fall-back length (16), the record
-length (16), the decrement (1), CC_CANT_RET_NUM_REQ_BYTES (CAh). -/
+length (16), the decrement (1), CC_CANT_RET_NUM_REQ_BYTES (CAh), and the floor of max_req_len
+(`if self.max_req_len <= F: raise RetryError()` behind the decrement; `none`: the pinned source,
+which lowers the length without end). -/
 structure SelCfg where
   entire : Nat
   full : Nat
   recLen : Nat
   step : Nat
   shrink : Nat
+  floor : Option Nat
   deriving Repr, DecidableEq
 
 /-- `req.length = self.max_req_len; if max_req_len != 0xff and offset + length > 16: length = 16 - offset` -/
 def selLen (cfg : SelCfg) (maxReq off : Nat) : Nat :=
   if maxReq ≠ cfg.entire ∧ off + maxReq > cfg.recLen then cfg.recLen - off else maxReq
 
-/-- `if self.max_req_len == 0xff: self.max_req_len = 16  else: self.max_req_len -= 1`
-(Python's int goes below zero after 17 refusals; here it stays at 0 -- see Props/C08.lean). -/
-def selShrink (cfg : SelCfg) (maxReq : Nat) : Nat :=
-  if maxReq = cfg.entire then cfg.full else maxReq - cfg.step
+/-- `if self.max_req_len == 0xff: self.max_req_len = 16  else: self.max_req_len -= 1` and, where the
+source has it, `if self.max_req_len <= F: raise RetryError()` (`none`).  (Without a floor Python's int
+goes below zero after 17 refusals; here it stays at 0 -- that is why the theorems about a source
+without floor admit at most 16 answers CAh; the exact model of that loop is Model/SelXfer.lean, C13.) -/
+def selShrink (cfg : SelCfg) (maxReq : Nat) : Option Nat :=
+  if maxReq = cfg.entire then some cfg.full
+  else
+    match cfg.floor with
+    | some f => if maxReq - cfg.step ≤ f then none else some (maxReq - cfg.step)
+    | none => some (maxReq - cfg.step)
 
 /-- One iteration of get_sel_entry after the response arrived.  `fin data next` is
 `(SelEntry(record_data), rsp.next_record_id)` (DecodingError for a wrong length / type). -/
 def selStep {β : Type} (cfg : SelCfg) (nextOf : Rsp → Nat) (pay : Rsp → List Nat)
     (fin : List Nat → Nat → Res β) (self : Nat → List Nat → Prog β)
     (maxReq : Nat) (acc : List Nat) (rsp : Rsp) : Prog β :=
-  if rsp.cc = cfg.shrink then self (selShrink cfg maxReq) acc
+  if rsp.cc = cfg.shrink then
+    (match selShrink cfg maxReq with
+     | some m => self m acc
+     | none => .fail .retryError)
   else if rsp.cc ≠ 0 then .fail (.ccError rsp.cc)
   else if cfg.recLen ≤ (acc ++ pay rsp).length then .ofRes (fin (acc ++ pay rsp) (nextOf rsp))
   else self maxReq (acc ++ pay rsp)
@@ -111,16 +123,19 @@ def gacStep {β γ : Type} (cancel : Nat) (again : Prog β) (x : Except Nat γ) 
   | .ok v => k v
   | .error c => if c = cancel then again else .fail (.ccError c)
 
-/-- `while True:` reserve; read (restart on C5h); delete (restart on C5h); return the entry. -/
-def getAndClear {β : Type} (cancel : Nat) (reserve : Prog Nat) (entry : Nat → Prog β) (del : Nat → Req) :
-    Nat → Prog β
-  | 0 => .fail (.pyError "Hang")
+/-- reserve; read (restart on C5h); delete (restart on C5h); return the entry.  `exh` is what the
+loop ends with when its recursion argument is used up: `.retryError` for `while retry > 0: retry -= 1
+… raise RetryError()` (the argument is `retry`), `.pyError "Hang"` for the pinned `while True` (the
+argument is fuel). -/
+def getAndClear {β : Type} (cancel : Nat) (reserve : Prog Nat) (entry : Nat → Prog β) (del : Nat → Req)
+    (exh : Err) : Nat → Prog β
+  | 0 => .fail exh
   | f + 1 =>
     reserve.bind fun res =>
       (entry res).tryCc.bind fun x =>
-        gacStep cancel (getAndClear cancel reserve entry del f) x fun e =>
+        gacStep cancel (getAndClear cancel reserve entry del exh f) x fun e =>
           (sendChecked (del res)).tryCc.bind fun y =>
-            gacStep cancel (getAndClear cancel reserve entry del f) y fun _ => .done e
+            gacStep cancel (getAndClear cancel reserve entry del exh f) y fun _ => .done e
 
 /-! ### helper.get_sdr_data_helper -/
 
